@@ -132,17 +132,42 @@ def rule_kind(ctx, py):
               "cgspace = coarsegrain_grid(system.space, index_map)", "stride is the size of the space built from this map",
               "the coarse space is not built from this system's grid and this map")
     # allocation extents
+    def alloc(v):
+        """(extent expression, element type or None) of an accumulator allocation"""
+        if isinstance(v, ast.ListComp) and len(v.generators) == 1 and isinstance(v.elt, ast.Constant) and \
+                isinstance(v.generators[0].iter, ast.Call) and pyfe.call_name(v.generators[0].iter) == "range" and \
+                len(v.generators[0].iter.args) == 1:
+            return v.generators[0].iter.args[0], None
+        if isinstance(v, ast.BinOp) and isinstance(v.op, ast.Mult):
+            for a_, b_ in ((v.left, v.right), (v.right, v.left)):
+                if isinstance(a_, ast.List) and len(a_.elts) == 1 and isinstance(a_.elts[0], ast.Constant):
+                    return b_, None
+        if isinstance(v, ast.Call) and pyfe.call_name(v).split(".")[-1] in ("zeros", "full") and v.args:
+            dt = None
+            for k_ in v.keywords:
+                if k_.arg == "dtype":
+                    dt = pyfe.src(k_.value)
+            if pyfe.call_name(v).endswith("zeros") and len(v.args) > 1:
+                dt = pyfe.src(v.args[1])
+            return v.args[0], dt
+        return None
     for name in ("cgstate", "cgchstt"):
         d = None
         for st in ast.walk(f):
             if isinstance(st, ast.Assign) and isinstance(st.targets[0], ast.Name) and st.targets[0].id == name and \
-                    isinstance(st.value, ast.ListComp):
-                d = st.value
+                    alloc(st.value) is not None:
+                d = st
         ctx.need(d is not None, R, "allocation of %s not found" % name)
-        e = pysym.frat(d.generators[0].iter.args[0], f)
+        ext, dt = alloc(d.value)
+        e = pysym.frat(ext, f)
         w = pysym.frat(P("cgspace.size() * system.network.nspecies()"), f)
-        ctx.check(e.equals(w), R, d, f._qual, "%s has %s entries" % (name, pyfe.src(d.generators[0].iter.args[0])),
+        ctx.check(e.equals(w), R, d, f._qual, "%s has %s entries" % (name, pyfe.src(ext)),
                   "groups x species", "wrong extent %r" % (e,))
+        if name == "cgstate":
+            ctx.check(dt in (None, "float", "np.float64", "np.double", "'float64'", "'float'", "numpy.float64"), R, d, f._qual,
+                      "%s accumulates real amounts (element type %s)" % (name, dt or "Python numbers"), "no truncation on +=",
+                      "the state accumulator is an array of %s: every `+=` of a fractional amount is truncated, the coarse-"
+                      "grained totals are not the totals of the retained cells" % dt, nontrivial=False)
     ctx.floor(R, 8)
 
 
@@ -321,6 +346,55 @@ def rule_units(ctx, py):
     ctx.floor(R, 1)
 
 
+def rule_cgscript(ctx, py):
+    """C16.SCRIPT -- the coarse-grained run is the given script with only its system replaced: a copy of the script whose
+    `system` is then assigned, or a constructor call that passes every other constructor parameter from the script"""
+    R = "C16.SCRIPT"
+    f = py.fn("simulate.simulate_script")
+    rec = [c for c in pyfe.calls_in(f) if pyfe.call_name(c) == "simulate_script"]
+    ctx.need(len(rec) == 1 and rec[0].args, R, "simulate_script: the run on the coarse-grained script is not found")
+    a0 = rec[0].args[0]
+    ctx.need(isinstance(a0, ast.Name), R, "simulate_script: coarse-grained script is not a local")
+    name = a0.id
+    defs = [st for st in ast.walk(f) if isinstance(st, ast.Assign) and len(st.targets) == 1 and
+            pyfe.src(st.targets[0]) == name]
+    ctx.need(len(defs) == 1, R, "simulate_script: %s assigned %d times" % (name, len(defs)))
+    v = defs[0].value
+    sysasg = [st for st in ast.walk(f) if isinstance(st, ast.Assign) and pyfe.src(st.targets[0]) == name + ".system"]
+    other = [st for st in ast.walk(f) if isinstance(st, (ast.Assign, ast.AugAssign)) and
+             pyfe.src(st.targets[0] if isinstance(st, ast.Assign) else st.target).startswith(name + ".") and st not in sysasg]
+    cg = lambda e: isinstance(e, ast.Call) and pyfe.call_name(e) == "coarsegrain_system" and len(e.args) == 2 and \
+        pyfe.src(e.args[0]) in ("script.system", name + ".system") and pyfe.src(e.args[1]) == "cgmap"
+    if isinstance(v, ast.Call) and pyfe.src(v) in ("script.copy()", "copy.deepcopy(script)", "cpy.deepcopy(script)"):
+        ctx.check(len(sysasg) == 1 and cg(sysasg[0].value) and not other, R, defs[0], f._qual,
+                  "%s = script.copy(); %s.system = coarsegrain_system(<its system>, cgmap)" % (name, name),
+                  "every other field is the script's", "the copy of the script is modified beyond its system: %s" %
+                  [pyfe.src(o)[:50] for o in other][:2])
+    elif isinstance(v, ast.Call) and pyfe.call_name(v) == "RDScript":
+        init = py.fn("rdscript.RDScript.__init__")
+        ps = [p for p in pyfe.params(init) if p != "self"]
+        kw = {k.arg: k.value for k in v.keywords}
+        for i, a in enumerate(v.args):
+            kw[ps[i]] = a
+        for p_ in ps:
+            if p_ == "system":
+                ctx.check(p_ in kw and cg(kw[p_]), R, v, f._qual, "system = coarsegrain_system(script.system, cgmap)", "", "the "
+                          "coarse-grained script does not receive the coarse-grained system")
+                continue
+            ctx.check(p_ in kw and pyfe.src(kw[p_]) in ("script.%s" % p_, "script._%s" % p_), R, v, f._qual,
+                      "RDScript(%s = %s)" % (p_, pyfe.src(kw[p_]) if p_ in kw else "<missing>"), "taken from the script",
+                      "the coarse-grained script is built without the script's `%s` (constructor default instead): with the "
+                      "identity map the run no longer reproduces the plain run" % p_)
+    else:
+        ctx.error(R, "simulate_script: construction of the coarse-grained script `%s` not recognised" % pyfe.src(v)[:60])
+    unc = [c for c in pyfe.calls_in(f) if pyfe.call_name(c) == "uncoarsegrain_trajectory"]
+    ctx.check(len(unc) == 1 and [pyfe.src(a) for a in unc[0].args] == [pyfe.src(t) for st in ast.walk(f) if isinstance(st, ast.Assign)
+              and st.value is rec[0] for t in st.targets] + ["script.system", "cgmap"], R, unc[0] if unc else f, f._qual,
+              "uncoarsegrain_trajectory(<coarse output>, script.system, cgmap)", "mapped back onto the original system with the "
+              "same map", "the coarse output is not mapped back with the script's system and the same map")
+    ctx.floor(R, 2)
+
+
 def run(ctx):
     py = ctx.py
     rule_pos_order(ctx, py)
@@ -331,4 +405,7 @@ def run(ctx):
     rule_clamp(ctx, py)
     rule_edge(ctx, py)
     rule_uncg(ctx, py)
+    rule_cgscript(ctx, py)
+    from .. import truth
+    truth.rule(ctx, "C16.TRUTH", ctx.py, ["simulate"], floor=3)
     ctx.assume("conservation totals, centroid distances and identity-map equivalence are value-level and not decided")
